@@ -254,3 +254,16 @@ package evm
 //@   requires s != nil && s.StateDB != nil
 //@   modifies everything
 //@   assert@call(ForEachStorage,0): $arg0 == s.StateDB && $arg1 == addr && $arg2 == cb   [C17]
+
+// ---- block context callbacks handed to the interpreter ------------------------------------------
+
+//@ func CanTransfer(db, addr, amount)
+//@   pure
+//@   requires db != nil
+//@   ensures result == (evmBal[addr] >= bigval(amount))                                                       [C17]
+
+//@ func Transfer(db, sender, recipient, amount)
+//@   requires db != nil
+//@   modifies evmBal
+//@   assert@call(SubBalance,0): $arg0 == sender && $arg1 == amount                                            [C17]
+//@   assert@call(AddBalance,0): $arg0 == recipient && $arg1 == amount                                         [C17]
